@@ -28,7 +28,12 @@ for d in sorted(glob.glob(os.path.join(V, "seeded/*/"))):
         if "patch.orig.diff" in files:
             m["rebased"] = "patch.diff is the author's change re-applied onto the tree with our fixes (same edit, shifted context); patch.orig.diff is the original"
     else:
-        m["origin"] = "round 2: fresh sub-agent given only the property text and a scratch worktree (three changes per property)"
+        import re as _re
+        rn = _re.search(r"-r(\d)-", s)
+        rn = rn.group(1) if rn else "2"
+        what = {"2": "three changes per property", "3": "four per property: numeric boundary, rare valid input shape, error/fault/history path, concurrency/order/state or caller",
+                "4": "four per property: glue/caller (main.go, shared helpers, bucket and URL handling), looks-like-an-optimisation, check weakened/moved/error swallowed, left-behind state"}.get(rn, "")
+        m["origin"] = "round %s: fresh sub-agent given only the property text and a scratch worktree (%s)" % (rn, what)
         rd = os.path.join(d, "README.md")
         if os.path.exists(rd):
             m["summary"] = open(rd).read()[:1500]
